@@ -1,7 +1,8 @@
 // C13 correspondence harness for tlx::RadixHeap (via RadixHeapPair<KeyType, uint32_t, Radix>).
 //   radix <w> <signed> <radix_bits> ops...
 //   ops: P,<hexpattern>,<payload> (push)  E (emplace)  F (emplace_keyfirst)  H (get_bucket_key + push_to_bucket)
-//        G (get_bucket + emplace_in_bucket)  T (top)  O (pop)  W (swap_top_bucket)  K (peak_top_key)  C (clear)
+//        G (get_bucket + emplace_in_bucket)  V (emplace(key, std::move(value)))  U (emplace_in_bucket(idx, std::move(value)))
+//        T (top)  O (pop)  W (swap_top_bucket)  K (peak_top_key)  C (clear)
 //        A (push(top())), M (emplace with arguments taken from top()), N (push_to_bucket(get_bucket(top()), top())):
 //        the argument aliases the heap's own storage
 //        Y / Z (copy / move construction+assignment round trip; no output token)
@@ -32,7 +33,7 @@ static std::vector<Op> parse_ops(std::istringstream& in) {
     std::vector<Op> ops; std::string tok;
     while (in >> tok) {
         Op o{tok[0], 0, 0};
-        if (tok[0] == 'P' || tok[0] == 'E' || tok[0] == 'F' || tok[0] == 'H' || tok[0] == 'G') {
+        if (tok[0] == 'P' || tok[0] == 'E' || tok[0] == 'F' || tok[0] == 'H' || tok[0] == 'G' || tok[0] == 'V' || tok[0] == 'U') {
             size_t a = tok.find(','), b = tok.find(',', a + 1);
             o.key = strtoull(tok.substr(a + 1, b - a - 1).c_str(), nullptr, 16);
             o.payload = static_cast<unsigned>(atol(tok.substr(b + 1).c_str()));
@@ -48,6 +49,15 @@ struct Item {
     KT key; uint32_t payload; std::string tag;     // heap-owning: a moved-from / destroyed source shows in the tag
     Item() : key(0), payload(0), tag("p0") {}
     Item(KT k, uint32_t p) : key(k), payload(p), tag("p" + std::to_string(p)) {}
+    Item(const Item&) = default;
+    Item& operator=(const Item&) = default;
+    // a move visibly empties the source: key := the type's maximum, payload := ~0, tag cleared
+    Item(Item&& o) noexcept : key(o.key), payload(o.payload), tag(std::move(o.tag)) { o.wipe(); }
+    Item& operator=(Item&& o) noexcept {
+        if (this != &o) { key = o.key; payload = o.payload; tag = std::move(o.tag); o.wipe(); }
+        return *this;
+    }
+    void wipe() { key = std::numeric_limits<KT>::max(); payload = 0xFFFFFFFFu; tag.clear(); }
     bool intact() const { return tag == "p" + std::to_string(payload); }
 };
 template <typename KT> static bool intact(const Item<KT>& v) { return v.intact(); }
@@ -89,7 +99,7 @@ static void run_radix_on(H h, const std::vector<Op>& ops, std::ostringstream& ou
         if (!first) out << ' ';
         first = false;
         switch (o.name) {
-        case 'P': case 'E': case 'F': case 'H': case 'G': {
+        case 'P': case 'E': case 'F': case 'H': case 'G': case 'V': case 'U': {
             KT k = static_cast<KT>(static_cast<UT>(o.key));
             if (have_last && k < last) { out << "INVALID-HISTORY"; return; }
             V val(k, o.payload);
@@ -99,6 +109,8 @@ static void run_radix_on(H h, const std::vector<Op>& ops, std::ostringstream& ou
             case 'E': idx = h.emplace(k, k, o.payload); break;                    // emplace(key, ctor args...)
             case 'F': idx = h.emplace_keyfirst(k, o.payload); break;              // emplace_keyfirst(key, rest...)
             case 'H': idx = ch.get_bucket_key(k); h.push_to_bucket(idx, val); break;
+            case 'V': { V tmp(val); idx = h.emplace(k, std::move(tmp)); break; }           // value constructed from an RVALUE
+            case 'U': { V tmp(val); idx = ch.get_bucket_key(k); h.emplace_in_bucket(idx, std::move(tmp)); break; }
             default:  idx = ch.get_bucket(val); h.emplace_in_bucket(idx, k, o.payload); break;
             }
             if (idx != ch.get_bucket_key(k)) f = "bucket-index";
